@@ -514,11 +514,21 @@ def make_loop(env, form, inner, level, brk=None):
         body = body_with([R.Print(R.Var(nv), ln=True), R.Assign(nv, N(value=0))])
         return pre + [R.Repeat('count', body, n=R.Var(nv))]
     if form == 'with':
-        return pre + [R.Repeat('with', body_with([R.Print(R.Var(v), ln=True)]), var=v,
-                               a=env.num('int3'), b=env.num('int3'))]
+        a, b = env.num('int3'), env.num('int3')
+        if ch.flag(0.3):
+            # both bounds are evaluated before the loop variable gets its first value: they may mention the value it had before
+            pre.append(R.Assign(v, env.num('int3')))
+            b = R.Bin('+', R.Var(v), b)
+            if ch.flag():
+                a = R.Bin('-', R.Var(v), N(value=1))
+        return pre + [R.Repeat('with', body_with([R.Print(R.Var(v), ln=True)]), var=v, a=a, b=b)]
     if form == 'count_with':
+        a, b = env.num('val'), env.num('val')
+        if ch.flag(0.3):
+            pre.append(R.Assign(v, env.num('int3')))
+            b = R.Bin('+', R.Var(v), b)
         return pre + [R.Repeat('count_with', body_with([R.Print(R.Var(v), ln=True)]), var=v,
-                               n=env.num(small), a=env.num('val'), b=env.num('val'))]
+                               n=env.num(small), a=a, b=b)]
     if form in ('count_cycle', 'count_cycle0'):
         return pre + [R.Repeat('count_cycle', body_with([R.Print(R.Var(v), ln=True)]), var=v,
                                n=env.num(small), start=env.num('val') if form == 'count_cycle' else None)]
